@@ -2,7 +2,7 @@
 import re
 from mirlib import AnchorMissing, describe_call, describe_operand, describe_place, describe_rvalue, dom_guards, guards, _suffix_match
 from rules import uplinks
-from rules.common import named_argument_rule, aggregates, where
+from rules.common import named_argument_rule, aggregates, where, role_by_type, guard_flags
 
 META = {
     "explanation": (
@@ -64,9 +64,43 @@ def _has(g, pred):
     return any(pred(d, l) for d, l, _ in g)
 
 
+def _read_task_roles(rd):
+    """Canonical names for the read task's locals, chosen from structure so that no rule depends on what the source calls them:
+    the three phase vectors are the arguments of the one `link(..)` call, in order (every other site - the NewConsumer pushes, sync_current,
+    sync_only, send_current, unlink - is then checked against that); `current` is the buffer interpret_frame_data writes; `sync_event` is the
+    constant-only flag tested on the way to sync_current; dl_state / consumer_stream / messages are the locals of their types."""
+    roles = {}
+    lk = [c for c in rd.calls if c.name == "link" and c.is_fn("downlink::link")]
+    if len(lk) == 1 and len(lk[0].args) == 3:
+        roots = [rd.copy_root(a) for a in lk[0].args]
+        if len(set(roots)) == 3 and None not in roots:
+            roles.update(zip(roots, VECS))
+    it = [c for c in rd.calls if c.via_name == "interpret_frame_data" and c.args]
+    if len(it) == 1:
+        roles[rd.copy_root(it[0].args[-1])] = "current"
+    sc = [c for c in rd.calls if c.name == "sync_current" and c.is_fn("downlink::sync_current")]
+    if len(sc) == 1:
+        fl = guard_flags(rd, sc[0].block)
+        if len(fl) == 1:
+            roles[fl[0]] = "sync_event"
+    role_by_type(rd, roles, "dl_state", lambda t: t.endswith("downlink::ReadTaskDlState"))
+    role_by_type(rd, roles, "consumer_stream", lambda t: "::ReceiverStream<" in t)
+    role_by_type(rd, roles, "messages", lambda t: "::FramedRead<" in t)
+    return roles
+
+
+def _write_task_roles(wt):
+    roles = {}
+    role_by_type(wt, roles, "task_state", lambda t: t.endswith("downlink::WriteTaskState"))
+    role_by_type(wt, roles, "registered", lambda t: "::SelectAll<" in t)
+    role_by_type(wt, roles, "state", lambda t: t.startswith("swimos_runtime::downlink::WriteState<"))
+    return roles
+
+
 def run(ctx):
     rt = ctx.crate(RT)
     rd = ctx.saw(_body(rt, "downlink::read_task::{closure#0}"))
+    rd.assign_roles(_read_task_roles(rd))
     lk = ctx.saw(_body(rt, "downlink::link::{closure#0}"))
     sc = ctx.saw(_body(rt, "downlink::sync_current::{closure#0}"))
     so = ctx.saw(_body(rt, "downlink::sync_only::{closure#0}"))
@@ -279,6 +313,7 @@ def run(ctx):
                 "unlink sends Unlinked to each element of the vector unconditionally", "Unlinked is sent conditionally: %s" % (dom_guards(ul, snd[0].block) if snd else "no send"))
 
     wt = ctx.saw(_body(rt, "downlink::write_task::{closure#0}"))
+    wt.assign_roles(_write_task_roles(wt))
 
     def wkind(c):
         # WriteKind passed to the suspend_write closure call
